@@ -100,7 +100,7 @@ def render_lex(v: dict) -> str:
     if g == "full":
         s += ":%02d" % v["S"]
         if v["f"]:
-            s += "." + "123456"[: v["f"]]
+            s += "." + ("1234567890" * 2)[: v["f"]]
     if v["tz"] == "Z":
         s += "Z"
     elif v["tz"] == "off":
